@@ -31,6 +31,14 @@ impl Rng {
     pub fn chance(&mut self, num: usize, den: usize) -> bool {
         self.below(den) < num
     }
+    pub fn shuffle<T: Clone>(&mut self, xs: &[T]) -> Vec<T> {
+        let mut v: Vec<T> = xs.to_vec();
+        for i in (1..v.len()).rev() {
+            let j = self.below(i + 1);
+            v.swap(i, j);
+        }
+        v
+    }
     pub fn pick<'a, T>(&mut self, xs: &'a [T]) -> &'a T {
         &xs[self.below(xs.len())]
     }
